@@ -105,7 +105,7 @@ def convert(
     if skip_procedure_headers := skip_procedure_headers or not output_dependencies:
         procname = ""
     else:
-        procname = procname if PROCNAME_REGEX.match(procname) else "program"
+        procname = procname if PROCNAME_REGEX.fullmatch(procname) else "program"
     basic_prog.set_procname(procname)
 
     # Patch INPUT statements
